@@ -651,9 +651,12 @@ def cost_conversion(prog):
         return prog._cost_conv
     from ..expr import expr_of_local, ADTS
     best = (None, {})
+    below = prog.reach_fns(prog.by_path.get("classic::crypto_pwhash::crypto_pwhash", []))
     for g in prog.fns:
         if g.kind == "closure" or g.argc != 2 or g.locals[1].get("t") != "u64" or g.locals[2].get("t") != "usize":
             continue
+        if g.key not in below:
+            continue        # the conversion is the one the public crypto_pwhash goes through
         e = expr_of_local(g, 0)
         if e is None or e.k != "agg" or not e.c or len(e.c) < 2:
             continue
